@@ -65,7 +65,7 @@ class VecEnc(Enc):
         if isinstance(e, V.VectorDerivative) or (isinstance(e, sp.Derivative) and self.is_vec(e.expr)):
             inner = e.expr
             if isinstance(inner, V.AppliedVectorFunction):
-                vc = tuple((str(v), int(n)) for v, n in e.variable_count)
+                vc = tuple(sorted((str(v), int(n)) for v, n in e.variable_count))      # partial derivatives commute: one variable per mixed partial
                 return self.vec3(("vd", str(inner.func.name), inner.args, vc), f"D{inner.func.display_name}")
             raise Unencodable("VectorDerivative of compound expression")
         if isinstance(e, V.AppliedVectorFunction):
@@ -137,6 +137,9 @@ class NumVec:
         if isinstance(e, sp.Derivative) and isinstance(e.expr, V.AppliedVectorFunction):
             order = sum(int(n) for _, n in e.variable_count)
             key = ("vd", str(e.expr.func.name), order)        # higher derivatives have their own assignment when one is given
+            mixed = ("vd", str(e.expr.func.name), tuple(sorted((str(v), int(n)) for v, n in e.variable_count)))
+            if mixed in self.fa:                               # ... and so do mixed partials of functions of several arguments
+                key = mixed
             return tuple(sp.sympify(x) for x in self.fa[key if key in self.fa else ("vd", str(e.expr.func.name))])
         if isinstance(e, V.AppliedVectorFunction):
             return tuple(sp.sympify(x) for x in self.fa[("vf", str(e.func.name))])
